@@ -38,12 +38,12 @@ INTERNED = ('S', 'D', 'arr', 'tf', 'ev', 'mesh')
 
 def nroutes(spec):
     t = spec[0]
-    return {'nd': 3, 'arr': 6, 'P': 4, 'S': 4, 'D': 4, 'V': 2, 'ev': 2, 'mesh': 3, 'fset': 3, 'dict': 3, 'fdict': 4, 'fmset': 3, 'tuple': 2, 'list': 2, 'method': 2, 'system': 2, 'tf': 2}.get(t, 1)
+    return {'nd': 3, 'arr': 8, 'P': 4, 'S': 4, 'D': 4, 'V': 2, 'ev': 2, 'mesh': 3, 'fset': 3, 'dict': 3, 'fdict': 4, 'fmset': 3, 'tuple': 2, 'list': 2, 'method': 2, 'system': 2, 'tf': 2}.get(t, 1)
 
 
 def _mod(m):
     from . import c17_a, c17_b
-    return c17_a if m == 'a' else c17_b
+    return c17_a if m[0] == 'a' else c17_b
 
 
 def build(spec, route=0):
@@ -100,8 +100,11 @@ def build(spec, route=0):
         return types.frozenarray(a, copy=False) if a.ndim else a
     if t == 'arr':
         kind, shape, vals = spec[1], tuple(spec[2]), spec[3]
-        dt = {'i': int, 'f': float, 'b': bool, 'c': complex}[kind]
+        dt = {'i': int, 'f': float, 'b': bool, 'c': complex, 'u': numpy.uint64}[kind]
         a = numpy.array(vals, dtype=dt).reshape(shape)
+        if kind == 'u':
+            # unsigned data: the same numbers as a signed array while they fit (same value), not representable in the canonical type beyond that (must be refused)
+            return types.arraydata(a if route % 2 == 0 else a.astype(numpy.uint32) if (a < 2**32).all() else a)
         if route == 1 and kind in 'if':
             narrow = a.astype({'i': numpy.int32, 'f': numpy.float32}[kind])
             if (narrow == a).all():
@@ -116,9 +119,11 @@ def build(spec, route=0):
             a = a.tolist()
         elif route == 5:
             return types.arraydata(types.arraydata(a))
+        elif route in (6, 7) and kind == 'i' and a.size and (a >= 0).all():
+            a = a.astype(numpy.uint64 if route == 6 or (a >= 256).any() else numpy.uint8)   # the same numbers as unsigned data
         return types.arraydata(a)
     if t in ('P', 'S', 'D', 'V'):
-        cls = getattr(_mod(spec[1]), t)
+        cls = getattr(_mod(spec[1]), t + spec[1][1:])   # module letter, optionally followed by '2': the subclass of the same name + '2'
         args = [build(s, route) for s in spec[2:]]
         names = {'P': ('a', 'b'), 'S': ('a', 'b', 'c'), 'D': ('x', 'y', 'z'), 'V': ('a',)}[t]
         defaults = {'P': {'b': 2}, 'S': {'b': 2, 'c': 'z'}, 'D': {'y': 'q', 'z': ()}, 'V': {}}[t]
@@ -170,6 +175,12 @@ def build(spec, route=0):
                 return mesh.line(spec[3])
             if spec[2] == 'quad':
                 return mesh.rectilinear([spec[3], 2])
+            if spec[2] == 'prod':
+                # a product of two topologies with spaces of their own: anything iterating over the set of space names depends on the string hash seed
+                t1, x = mesh.line(spec[3], space='X')
+                t2, y = mesh.line(2, space='Yy')
+                t3, z = mesh.line(1, space='Zeta')
+                return t1 * t2 * t3, numpy.stack([x, y, z])
             return mesh.unitsquare(spec[3], 'triangle')
         topo, geom = mk()
         if route % 3 == 1:
@@ -261,6 +272,8 @@ def spec_key(spec):
         return [t, spec[1]] + [spec_key(s) for s in args]
     if t == 'npint':
         return ['int', spec[1]]
+    if t == 'arr' and spec[1] == 'u' and all(v < 2**63 for v in spec[3]):
+        return ['arr', 'i', spec[2], spec[3]]   # unsigned data that fit the canonical signed type: the same value
     if t == 'mesh' and spec[1] in MESH_SIZE_FREE:
         # these values do not depend on the number of elements of the mesh they are taken from: same value
         return [t, spec[1], spec[2], 0]
@@ -354,7 +367,7 @@ def gen_spec(rng, depth=0):
         return gen_arr(rng)
     if r < 0.8:
         cls = rng.choice(['P', 'S', 'D', 'V'])
-        mod = rng.choice('ab')
+        mod = rng.choice(['a', 'b', 'a', 'b', 'a2', 'b2']) if cls != 'V' else rng.choice('ab')
         if cls == 'D':
             args = [['int', rng.choice([1, 2, 3])]] + ([['str', rng.choice(['q', 'r'])]] if rng.random() < 0.6 else [])
             if len(args) == 2 and rng.random() < 0.5:
@@ -375,6 +388,8 @@ def gen_spec(rng, depth=0):
         b = rng.choice([['ev', 'arg', 'z', [2]], ['ev', 'const', ['arr', 'f', [2], [rng.choice([0.5, 1.5]), 2.0]]]])
         return ['ev', k, a, b]
     if r < 0.97:
+        if rng.random() < 0.15:
+            return ['mesh', rng.choice(['sample', 'integral', 'integral']), 'prod', rng.choice([1, 2, 3])]
         return ['mesh', rng.choice(['references', 'transforms', 'btransforms', 'points', 'sample', 'integral'] + sorted(MESH_EXTRA)), rng.choice(['line', 'quad', 'tri']), rng.choice([1, 2, 3])]
     if r < 0.985:
         return ['method', rng.choice(['Direct', 'Newton', 'LinesearchNewton']), [['atol', ['float', rng.choice([1e-8, 1e-6])]], ['solver', ['str', rng.choice(['arnoldi', 'direct'])]]]]
@@ -421,6 +436,9 @@ def near_misses(spec, rng):
         kind, shape, vals = spec[1:4]
         n = len(vals)
         out.append(['nd' if t == 'arr' else 'arr', kind, shape, vals])
+        if kind == 'i' and t == 'arr' and vals and all(v >= 0 for v in vals):
+            out.insert(0, ['arr', 'u', shape, [v + 2**63 for v in vals]])            # not representable: must be refused ...
+            out.insert(0, ['arr', 'i', shape, [v - 2**63 for v in vals]])            # ... and must not be confused with the numbers it would wrap to
         if kind == 'i':
             out.append([t, 'f', shape, [float(v) for v in vals]])
             if all(v in (0, 1) for v in vals):
@@ -435,7 +453,9 @@ def near_misses(spec, rng):
             out.append([t, kind, [1], vals])
             out.append([{'i': 'int', 'f': 'float', 'b': 'bool'}.get(kind, 'none'), vals[0]] if kind in 'ifb' else ['none'])
     elif t in ('P', 'S', 'D', 'V'):
-        out.append([t, 'b' if spec[1] == 'a' else 'a'] + spec[2:])
+        out.append([t, ('b' if spec[1][0] == 'a' else 'a') + spec[1][1:]] + spec[2:])
+        if t != 'V':
+            out.insert(0, [t, spec[1][0] + ('' if spec[1][1:] else '2')] + spec[2:])   # base class <-> subclass, same arguments
         for i in range(2, len(spec)):
             if spec[i] == ['float', 0.0]:
                 # same type, other value (1/x differs), but equal for Python: -0.0
@@ -522,6 +542,7 @@ def gen_case(rng, index, tier):
                  ['dict', [[['str', w], ['int', i]] for i, w in enumerate(rng.sample(['a', 'b', 'ab', 'abc', 'c', 'bc', 'x'], rng.choice([2, 3, 4])))]],
                  ['fmset', [['str', w] for w in rng.sample(['a', 'b', 'ab', 'abc', 'c'], 3)] + [['bytes', '61']]],
                  ['fdict', [[['str', w], ['float', 0.5]] for w in rng.sample(['k', 'kk', 'kkk', 'q'], 3)]]]
+        extra.append(['mesh', 'integral', 'prod', rng.choice([1, 2])])
         return dict(kind='xproc', pool=gen_pool(rng, 8) + gen_pool(rng, 8) + extra, hashseed=rng.choice([1, 2, 12345, 'random']))
     pool = gen_pool(rng, rng.choice([3, 4, 5, 6, 8]))
     ops = []
@@ -548,6 +569,15 @@ def gen_case(rng, index, tier):
 def _hash(v):
     from nutils import types
     return types.nutils_hash(v).hex()
+
+
+def _content_check(spec, v):
+    '''An array container must hold exactly the numbers it was given (whatever the element width or signedness they arrived in).'''
+    if spec[0] == 'arr' and spec[1] in 'iu':
+        got = numpy.asarray(v).ravel().tolist()
+        if [int(x) for x in got] != [int(x) for x in spec[3]]:
+            return f'array data built from {spec} holds {got[:6]}'
+    return None
 
 
 def canonical_keys(pool):
@@ -594,7 +624,8 @@ def run_history(case):
     keys = canonical_keys(pool)
     # pristine phase: model hash of every spec by its plainest route
     model = []
-    for s in pool:
+    refused = set()
+    for si, s in enumerate(pool):
         try:
             v = build(s, 0)
             model.append(_hash(v))
@@ -602,6 +633,15 @@ def run_history(case):
             if 'unhashable' in str(e):
                 return viol('E-unhashable', f'{s} cannot be hashed: {e}'[:300], case, [])
             raise
+        except ValueError as e:
+            if s[0] == 'arr' and s[1] == 'u' and any(x >= 2**63 for x in s[3]):
+                refused.add(si)   # not representable in the canonical element type: refusing is the right answer
+                model.append('refused:%d' % si)
+                continue
+            raise
+        bad = _content_check(s, v)
+        if bad:
+            return viol('H-value-altered', bad, case, [])
         del v
     gc.collect()
     # injectivity on the pool (pairs of different values never share a hash)
@@ -645,6 +685,8 @@ def run_history(case):
         bad = None
         if kind == 'build':
             si, route = op[1], op[2]
+            if si in refused:
+                continue
             try:
                 v = build(pool[si], route)
             except Exception as e:
@@ -815,6 +857,10 @@ def run_xproc(case):
             return viol('I-interning-lost-after-pickle', f'{s}: unpickling a value written by another interpreter gives a second object while an equal one is alive', case, log)
         del v, local
     for i, (s, a, b) in enumerate(zip(pool, here, there)):
+        if s[0] == 'arr' and s[1] == 'u' and any(x >= 2**63 for x in s[3]):
+            if all(h.startswith('ValueError') for h in a + b):
+                continue   # refused here and there: right
+            return viol('H-value-altered', f'{s} is not representable in the canonical element type but was accepted: {[h[:10] for h in a + b]}', case, log)
         if any(h.startswith(('TypeError', 'unhashable')) for h in a + b):
             return viol('E-unhashable', f'{s}: {[h for h in a + b if h.startswith(("TypeError", "unhashable"))][0]}', case, log)
         errs = [h for h in a + b if ':' in h]
